@@ -277,7 +277,7 @@ def run_std(spec):
             def topology(self): return 'vp-test'
             def _generate(self, params):
                 g = nx.empty_graph(int(params.get('n', 0))); g.graph['params'] = dict(params); return g
-        ps = {'n': 3}
+        ps = {'n': 3, 'stale': 1}
         gen = G(limit=spec['limit']).set(ps)
         ps['n'] = 7                                                   # the caller's dict changes after set(): the generator must not see it
         made = []
